@@ -1,4 +1,4 @@
-"""C17 (thin) — double-word ln 2 constants of argument_reduction_exponent.  Rule R17.1/R17.2."""
+"""C17 — argument reduction: exponential reduction decided by k-partition (R17.2, R17.5); trigonometric last step and shortcut (R17.3, R17.4)."""
 
 from __future__ import annotations
 
@@ -81,10 +81,21 @@ def check_trig_recombination(r, repo, rule="R17.3"):
 
     I = Interp(repo)
     I.globals_cache[(REL, "add_2sum")] = add_2sum
-    I.globals_cache[(REL, "split_tripleword")] = lambda ctx, x, **kw: ("x_tw",)
-    I.globals_cache[(REL, "mul_mw_mod4")] = lambda ctx, a, b, **kw: (K, Y, Tt)
+    W = [RV({(f"W{i}",): 1}) for i in range(3)]
+    split_args, mul_args = [], []
+
+    def split_tripleword(ctx, x, **kw):
+        split_args.append(x)
+        return ("x_tw",)
+
+    def mul_mw_mod4(ctx, a, b, **kw):
+        mul_args.append((a, list(b) if isinstance(b, (list, tuple)) else b))
+        return (K, Y, Tt)
+
+    I.globals_cache[(REL, "split_tripleword")] = split_tripleword
+    I.globals_cache[(REL, "mul_mw_mod4")] = mul_mw_mod4
     I.ext_calls = {
-        "functional_algorithms.utils.get_two_over_pi_multiword": lambda *a, **k: [1.0],
+        "functional_algorithms.utils.get_two_over_pi_multiword": lambda *a, **k: list(W),
         "functional_algorithms.utils.get_pi_over_two_multiword": lambda *a, **k: [PH, PL],
     }
     from sa.absint import ModRef
@@ -98,6 +109,12 @@ def check_trig_recombination(r, repo, rule="R17.3"):
     k_, r_, t_ = out
     ok_k = isinstance(k_, Poly) and k_ == K
     r.ob(rule, f"{REL}::argument_reduction_trigonometric_impl returns the quadrant of the multiword product", ok_k, f"first result is {k_!r}", loc(REL, g))
+    ok_args = (
+        len(mul_args) == 1 and mul_args[0][0] == ("x_tw",) and len(split_args) == 1 and isinstance(split_args[0], Poly) and Poly.__eq__(split_args[0], RV({("x",): 1}))
+        and isinstance(mul_args[0][1], list) and len(mul_args[0][1]) == len(W) and all(isinstance(b_, Poly) and Poly.__eq__(b_, w_) for b_, w_ in zip(mul_args[0][1], W))
+    )
+    r.ob(rule, f"{REL}::argument_reduction_trigonometric_impl multiplies the triple-word split of x by every word of the multiword 2/pi, in order", ok_args,
+         f"mul_mw_mod4 is applied to {mul_args!r}; split_tripleword is applied to {split_args!r}; expected the split of x and the words {W!r}", loc(REL, g))
     try:
         total = r_ + t_
         want = (Y + Tt) * (PH + PL)
@@ -151,20 +168,190 @@ def check_trig_recombination(r, repo, rule="R17.3"):
              loc(REL, g))
 
 
+def check_exponent_bounds(r, b, hi, lo, inv, where, rule="R17.5"):
+    """Derive the two numeric claims of the exponential reduction for one format from the verified dataflow
+    (k = floor(fl(fl(x*INV) + 1/2)), r = fl(x - k*HI), c = -fl(k*LO)) by partitioning the domain by the value of k.
+
+    For a fixed integer k the set of inputs that produce it is confined by monotonicity of rounding:
+      fl(t) < k + 1  =>  t < k + 1            (k + 1 is a float)        =>  fl(q) < k + 1/2  =>  q < k + 1/2,
+      fl(t) >= k     =>  t >= k - u|k|        (half the gap below k)    =>  fl(q) >= B = k - 1/2 - u|k|  =>  q >= B - 2u|B| - tiny,
+    with q = x*INV exactly.  On that interval: k*HI is exact when the significands of k and HI fit in p bits (else one rounding is charged), the subtraction is exact
+    by Sterbenz when fl(k*HI)/2 <= x <= 2 fl(k*HI) (else one rounding u|r| is charged), c = -k*LO*(1+d), |d| <= u (plus half a subnormal quantum when it can underflow).  All arithmetic is
+    exact rational; the claim is checked for every k the domain |x| < log(largest) admits."""
+    from sa.numconst import EMAX, EMIN
+    p = PREC[b]
+    u = Fraction(1, 2 ** p)
+    tiny = Fraction(2) ** (EMIN[b] - p + 1)
+    L2 = hi + lo
+    xdom = (EMAX[b] + 1) * LN2  # log(largest) < (emax + 1) ln 2
+    kdom = int(xdom * inv * (1 + 2 * u) + Fraction(1, 2)) + 1
+    bound_rc = Fraction(55, 100) * LN2
+    worst_rc, worst_rec, nk, nster = (Fraction(0), None), (Fraction(0), None), 0, 0
+    fails = []
+    if inv <= 0:
+        fails.append(f"the multiplier {float(inv)!r} is not positive: k does not follow x")
+        kdom = -1
+    elif 2 * kdom + 1 >= 2 ** p:
+        fails.append(f"k ranges up to {kdom}: k + 1/2 is not a float{b} number")
+        kdom = -1
+    nprod = 0
+    for k in range(-kdom, kdom + 1):
+        B = k - Fraction(1, 2) - u * abs(k)
+        q_lo = B - 2 * u * abs(B) - tiny
+        q_hi = k + Fraction(1, 2)
+        x_lo, x_hi = max(q_lo / inv, -xdom), min(q_hi / inv, xdom)
+        if x_lo > x_hi:
+            continue
+        nk += 1
+        if k == 0:
+            r_err = c_err = Fraction(0)  # r = x - 0, c = -0
+        else:
+            # the product k*HI: exact when the significands fit, else one rounding
+            if significant_bits(hi) + abs(k).bit_length() <= p:
+                p_err = Fraction(0)
+                nprod += 1
+            else:
+                p_err = u * abs(k * hi)
+            m_lo, m_hi = k * hi - p_err, k * hi + p_err  # the float fl(k*HI) lies here
+            # Sterbenz: y/2 <= x <= 2y for floats x, y of one sign makes x - y exact
+            if (x_lo > 0 and m_lo > 0 and m_hi / 2 <= x_lo and x_hi <= 2 * m_lo) or (x_hi < 0 and m_hi < 0 and -m_lo / 2 <= -x_hi and -x_lo <= -2 * m_hi):
+                r_err = p_err
+                nster += 1
+            else:
+                r_err = p_err + u * (max(abs(x_lo - m_hi), abs(x_hi - m_lo), abs(x_lo - m_lo), abs(x_hi - m_hi)))
+            c_err = u * abs(k * lo) + (tiny / 2 if abs(k * lo) * (1 - u) < Fraction(2) ** EMIN[b] else 0)
+        rc_lo = x_lo - k * L2 - c_err - r_err
+        rc_hi = x_hi - k * L2 + c_err + r_err
+        m = max(abs(rc_lo), abs(rc_hi))
+        if m > worst_rc[0]:
+            worst_rc = (m, k)
+        if m > bound_rc:
+            fails.append(f"k={k}: |r + c| can reach {float(m):.6g} > 0.55 ln 2 = {float(bound_rc):.6g} for x in [{float(x_lo)!r}, {float(x_hi)!r}]")
+        rec = abs(k) * abs(LN2 - L2) + c_err + r_err
+        xmin = 0 if x_lo <= 0 <= x_hi else min(abs(x_lo), abs(x_hi))
+        ux = ulp(b, xmin) if xmin else tiny
+        ratio = rec / ux
+        if ratio > worst_rec[0]:
+            worst_rec = (ratio, k)
+        if rec > ux:
+            fails.append(f"k={k}: |k ln2 + (r + c) - x| can reach {float(rec):.3e} > ulp(x) = {float(ux):.3e} at |x| = {float(xmin)!r}")
+    r.ob(
+        rule, f"{REL}::argument_reduction_exponent float{b}: |r + c| <= 0.55 ln 2 and reconstruction within 1 ulp of x, for every k", not fails,
+        f"float{b}: " + "; ".join(fails[:3]) + (f" (and {len(fails) - 3} more k)" if len(fails) > 3 else ""), where,
+        sample=dict(rule=rule, bits=b, hi=float(hi), lo=float(lo), inv=float(inv), abs_err_hi_plus_lo=float(abs(L2 - LN2)), hi_significand_bits=significant_bits(hi), k_values=nk, k_range=[-kdom, kdom], subtraction_exact_by_sterbenz=nster, product_exact=nprod,
+                    max_abs_r_plus_c=float(worst_rc[0]), at_k=worst_rc[1], bound=float(bound_rc),
+                    max_reconstruction_error_in_ulp_of_x=float(worst_rec[0]), at_k_rec=worst_rec[1]),
+    )
+
+
+def check_product_mod4(r, repo, rule="R17.6", ylens=(1, 2, 4)):
+    """Trigonometric reduction, the multiword product modulo 4: mul_mw_mod4(x, y) is interpreted (sa/absint.py) on symbolic words
+    under exact-arithmetic semantics - + - * exact polynomials, the 2Sum pair summarised by its contract, trunc(.) and round(.)
+    fresh *integer* unknowns, `K % 4` = K - 4m with m a fresh integer.  The three results must satisfy
+        k + r + rest  ==  sum_ij x_i*y_j  -  4 * (an integer combination of the integer unknowns),
+    the first result must be a value reduced modulo 4 (that is what confines it to {0, 1, 2, 3}), and the second must be
+    `total - round(total)` (that is what confines the fractional part to [-1/2, 1/2]).  A partial product that is skipped or
+    counted twice, an error term of a 2Sum that is dropped, or a multiple-of-4 removal that is not a multiple of 4 breaks it."""
+    from sa.absint import Interp, Closure, Unsupported as IUnsupported, PyRaise
+    from rules.C12 import Poly
+
+    g = repo.func(REL, "mul_mw_mod4")
+    for ny in ylens:
+        fresh = [0]
+        ints, mods, rounds = set(), [], []
+
+        class RV(Poly):
+            __absint_host__ = True
+
+            def __float__(self):
+                return float("nan")
+
+            def __hash__(self):
+                return id(self)
+
+            def __mod__(self, o):
+                o = Poly.lift(o)
+                if o is None or set(o.t) != {()}:
+                    return NotImplemented
+                fresh[0] += 1
+                nm = f"m{fresh[0]}"
+                ints.add(nm)
+                out = lift(self - RV({(nm,): o.t[()]}))
+                mods.append((out, self, o.t[()]))
+                return out
+
+        def lift(p_):
+            return RV(p_.t) if isinstance(p_, Poly) and not isinstance(p_, RV) else p_
+
+        def newint(prefix):
+            fresh[0] += 1
+            nm = f"{prefix}{fresh[0]}"
+            ints.add(nm)
+            return RV({(nm,): Fraction(1)})
+
+        class Ctx:
+            __absint_host__ = True
+
+            def constant(self, v, like=None):
+                return v if isinstance(v, RV) else RV({(): Fraction(v)})
+
+            def trunc(self, v):
+                return newint("n")
+
+            def round(self, v):
+                k_ = newint("K")
+                rounds.append((k_, v))
+                return k_
+
+        def add_2sum(ctx, a, b, *rest, **kw):
+            fresh[0] += 1
+            s_ = RV({(f"s{fresh[0]}",): Fraction(1)})
+            return (s_, lift(Poly.lift(a) + Poly.lift(b) - s_))
+
+        I = Interp(repo)
+        I.globals_cache[(REL, "add_2sum")] = add_2sum
+        xs = [RV({(f"x{i}",): Fraction(1)}) for i in range(3)]
+        ys = [RV({(f"y{j}",): Fraction(1)}) for j in range(ny)]
+        try:
+            out = I.call(Closure(g, {}, I, REL, bound_self=None), [Ctx(), list(xs), list(ys)])
+        except (IUnsupported, PyRaise, TypeError) as e:
+            raise AnalysisError(f"mul_mw_mod4 is not interpretable: {getattr(e, 'what', e)}")
+        if not (isinstance(out, tuple) and len(out) == 3 and all(isinstance(o, Poly) for o in out)):
+            raise AnalysisError(f"mul_mw_mod4 returns {out!r}, expected (k, r, rest)")
+        k_, y_, rest_ = out
+        want = Poly({})
+        for a in xs:
+            for b_ in ys:
+                want = want + a * b_
+        diff = want - (k_ + y_ + rest_)
+        bad = {mon: c for mon, c in diff.t.items() if not (len(mon) == 1 and mon[0] in ints and Fraction(c) % 4 == 0)}
+        r.ob(rule, f"{REL}::mul_mw_mod4 [3 x {ny} words] k + r + rest == sum of all partial products modulo 4", not bad,
+             f"sum x_i*y_j - (k + r + rest) = {diff!r}: the terms {Poly(bad)!r} are not multiples of 4 of integer unknowns ({sorted(ints)})", loc(REL, g),
+             sample=dict(rule=rule, words=[3, ny], partial_products=3 * ny, integer_unknowns=len(ints)))
+        is_mod = any(o is k_ or Poly.__eq__(o, k_) for o, _, m in mods if m == 4)
+        r.ob(rule, f"{REL}::mul_mw_mod4 [3 x {ny} words] the quadrant is reduced modulo 4", is_mod,
+             f"the first result is {k_!r}, not a value of the form (integer) % 4: it can leave {{0, 1, 2, 3}}", loc(REL, g))
+        is_frac = any(Poly.__eq__(y_, Poly.lift(v) - kk) for kk, v in rounds)
+        r.ob(rule, f"{REL}::mul_mw_mod4 [3 x {ny} words] the fraction is total - round(total)", is_frac,
+             f"the second result is {y_!r}, not `v - round(v)` for a rounded v: it is not confined to [-1/2, 1/2]", loc(REL, g))
+
+
 def run(repo, tier):
     r = Report("C17", tier, repo, level="other", design_ref="§3/C17")
     r.explanation = (
-        "Thin structural clause of C17: the *active* double-word ln 2 constants of get_log2_doubleword_and_inverse (selected by "
-        "constant-evaluating the `if 0/elif 1` chain) are rounded to each format in exact rational arithmetic and checked: "
-        "hi+lo approximates ln 2 to within half an ulp of lo, hi is short enough for k*hi to be exact for every admissible k, "
-        "ln2/ln2inv/ln2half literals are the correctly rounded values; the reduction formula k=floor(x*ln2inv+1/2), r=x-k*hi, "
-        "c=-k*lo is matched structurally. Reconstruction bounds on inputs are NOT decided."
+        "The exponential reduction is decided for every input: the dataflow of argument_reduction_exponent is extracted and matched "
+        "against k = floor(x*INV + 1/2), r = x - k*HI, c = -(k*LO) (R17.2); the constants that occupy INV/HI/LO are resolved per format "
+        "(`if 0/elif 1` chain folded, dtype switch on `largest` evaluated) and rounded exactly; then, for every integer k the domain "
+        "|x| < log(largest) admits, the set of x producing that k is enclosed using monotonicity of rounding, and |r + c| <= 0.55 ln 2 "
+        "and |k ln 2 + (r + c) - x| <= ulp(x) are checked in exact rational arithmetic (R17.5). Trigonometric reduction: only the last "
+        "step (R17.3) and the shortcut guard (R17.4) are decided; its numeric bound (a Payne-Hanek product with a multiword 2/pi) is not."
     )
     r.trusted_base = ["Python ast", "ln 2 and 1/ln 2 to 100 digits", "struct rounding of literals to binary16/32"]
-    r.rule("R17.1", "double-word ln2: |hi+lo-ln2| <= ulp(lo)/2 and hi leaves enough trailing zero bits for exact k*hi", floor=9)
-    r.rule("R17.3", "trigonometric reduction: the returned double-word remainder equals (y + t) * (pi/2 double-word) as an exact-arithmetic polynomial identity (2Sum summarised by its contract)", floor=2)
+    r.rule("R17.3", "trigonometric reduction: the returned double-word remainder equals (y + t) * (pi/2 double-word) as an exact-arithmetic polynomial identity (2Sum summarised by its contract); the product modulo 4 is applied to the split of x and the whole multiword 2/pi", floor=3)
     r.rule("R17.4", "trigonometric reduction: the no-reduction shortcut (r = x, t = 0) is guarded by |x| < (head word of pi/2) / 2, symmetric in the sign of x", floor=2)
-    r.rule("R17.2", "reduction formula: k = floor(x*ln2inv + 1/2), r = x - k*ln2hi, c = -k*ln2lo; scalar constants correctly rounded", floor=5)
+    r.rule("R17.5", "exponential reduction, derived per format by partitioning the domain by k (exact rational bounds from monotone rounding, Sterbenz, one rounding of k*ln2lo): |r + c| <= 0.55 ln 2 and |k ln2 + (r + c) - x| <= ulp(x) for every admissible x", floor=3)
+    r.rule("R17.6", "trigonometric reduction, multiword product modulo 4 (exact-arithmetic identity on symbolic words, 2Sum by contract, trunc/round as integer unknowns): k + r + rest == sum of all partial products minus a multiple of 4; k is reduced modulo 4; r = total - round(total)", floor=9)
+    r.rule("R17.2", "reduction formula (dataflow): k = floor(x*INV + 1/2), r = x - k*HI, c = -k*LO with one constant in each place", floor=3)
 
     from sa.kernels import Extractor, IN, CONST, normal as knf, show, lift, is_term, Unsupported as KUnsupported
 
@@ -248,52 +435,9 @@ def run(repo, tier):
             raise AnalysisError(f"constant expected, got {show(t)}")
         return float(t[1])
 
-    if HI is not None and LO is not None:
+    if HI is not None and LO is not None and INV is not None and ok_r and ok_c:
         for b in BITS:
-            hi_lit, lo_lit = value_for(HI, b), value_for(LO, b)
-            hi, lo = round_to(b, hi_lit), round_to(b, lo_lit)
-            err = abs(hi + lo - LN2)
-            bound = ulp(b, lo) / 2
-            r.ob(
-                "R17.1", f"{REL}::ln2 double-word float{b} accuracy", err <= bound and hi > 0 and lo > 0,
-                f"float{b}: hi={hi_lit!r} lo={lo_lit!r}: |hi+lo-ln2| = {float(err):.3e} exceeds ulp(lo)/2 = {float(bound):.3e}", loc(REL, g),
-                sample=dict(rule="R17.1", bits=b, hi=hi_lit, lo=lo_lit, abs_err=float(err), half_ulp_lo=float(bound)),
-            )
-            sb = significant_bits(hi)
-            need = KMAX[b].bit_length()
-            r.ob(
-                "R17.1", f"{REL}::ln2hi float{b} short enough for exact k*hi", sb + need <= PREC[b],
-                f"float{b}: ln2hi={hi_lit!r} uses {sb} significand bits; with |k| <= {KMAX[b]} ({need} bits) the product k*hi needs {sb + need} > {PREC[b]} bits and is rounded",
-                loc(REL, g),
-            )
-            r.ob("R17.1", f"{REL}::ln2hi float{b} literal is exactly representable", round_to(b, hi_lit) == Fraction(hi_lit) if b == 64 else significant_bits(round_to(b, hi_lit)) <= PREC[b],
-                 "", loc(REL, g))
-    if INV is not None:
-        for b in BITS:
-            lit = value_for(INV, b)
-            v = round_to(b, lit)
-            ok = abs(v - LN2INV) <= ulp(b, LN2INV) / 2
-            r.ob("R17.2", f"{REL}::1/ln2 float{b} correctly rounded", ok, f"the multiplier {lit!r} rounds to {float(v)!r} in float{b}; |error vs 1/ln 2| = {float(abs(v - LN2INV)):.3e} > half ulp", loc(REL, g))
+            check_exponent_bounds(r, b, round_to(b, value_for(HI, b)), round_to(b, value_for(LO, b)), round_to(b, value_for(INV, b)), loc(REL, g))
     check_trig_recombination(r, repo)
-    # every other scalar the constants function returns that is (close to) ln 2 or ln 2 / 2 must be correctly rounded too
-    f = repo.func(REL, "get_log2_doubleword_and_inverse")
-    try:
-        allc = ex.call(REL, "get_log2_doubleword_and_inverse", [("opaque", "ctx"), CONST("largest")], {})
-    except KUnsupported as e:
-        raise AnalysisError(f"get_log2_doubleword_and_inverse: {e}")
-    for pos, t in enumerate(allc if not is_term(allc) else [allc]):
-        t = lift(t)
-        if t[0] != "const":
-            continue
-        try:
-            lit = float(t[1])
-        except ValueError:
-            continue
-        for nm, true in (("ln 2", LN2), ("ln 2 / 2", LN2 / 2), ("1 / ln 2", LN2INV)):
-            if abs(Fraction(lit) - true) <= true / 1000:
-                for b in BITS:
-                    v = round_to(b, lit)
-                    ok = abs(v - true) <= ulp(b, true) / 2
-                    r.ob("R17.2", f"{REL}::get_log2_doubleword_and_inverse result #{pos} ({nm}) float{b} correctly rounded", ok,
-                         f"{lit!r} rounds to {float(v)!r} in float{b}; |error| = {float(abs(v - true)):.3e} > half ulp", loc(REL, f))
+    check_product_mod4(r, repo)
     return r
